@@ -392,10 +392,38 @@ func pairFamily(emit func(string)) {
 	}
 }
 
+// string literals of every escape form and raw byte class (escapeBodies of lex.go), in both quote styles:
+// alone, adjacent, and inside programs
+func stringLiteralFamily(emit func(string)) {
+	var lits []string
+	for _, b := range escapeBodies {
+		lits = append(lits, "\""+b+"\"", "`"+b+"`")
+	}
+	for i, l := range lits {
+		emit(l)
+		emit("x = " + l + "; y = 1")
+		emit("println(" + l + ")\nz")
+		emit("f(" + l + ", " + l + ")")
+		emit("[" + l + "]")
+		emit("{" + l + ": " + l + "}")
+		emit("func(){" + l + "}")
+		emit("a " + l + " b")
+		emit(l + ".a")
+		emit("x[" + l + "]")
+		emit("if " + l + " == " + l + " {1}")
+		for j := i % 5; j < len(lits); j += 5 {
+			emit(l + " " + lits[j])
+			emit(l + lits[j])
+			emit("x = " + l + " + " + lits[j])
+		}
+	}
+}
+
 func formatGen(tier string, r *rng, emit func(string)) {
 	thorough := tier == "thorough"
 	src := func(s string) { emit(hx(s)) }
 	pairFamily(src)
+	stringLiteralFamily(src)
 	// statement adjacency: every ordered pair of statement kinds with every separator
 	stmts := []string{"a", "1", "\"s\"", "-a", "(a)", "[a]", "{1:2}", "a+b", "a++", "a = 1", "a = [1]", "a = {1:2}", "a = b[1]", "f(a)", "a.b", "a[1]", "a[1:]", "x => x", "x => {x}", "(x,y) => x", "func(){a}", "func f(){a}",
 		"if a {b}", "if a {b} else {c}", "for a {b}", "return", "return a", "break", "len(a)", "macro(){a}", "// c\n", "/* c */", "true", "..", "!a", "++a", "a--", "a = -b", "a = b => c", "a = func(){b}", "a = if b {c} else {d}"}
@@ -438,4 +466,10 @@ func formatGen(tier string, r *rng, emit func(string)) {
 	for i := 0; i < n; i++ {
 		src(mutate(r, genProgram(r, 1+r.intn(3))))
 	}
+}
+
+// escapes whose value is 0 or >= 0x80, raw invalid UTF-8, unknown and octal-looking escapes: also used by the
+// random program generator
+func init() {
+	gStrings = append(gStrings, `"\u0000"`, `"a\u0000b"`, `"\x80"`, `"≡"`, "\"\xff\"", "`\xff\x80`", "\"\xc3\x28\"", `"\q\0"`)
 }
